@@ -489,6 +489,16 @@ func (x *Exec) applyContract(fr *Frame, st *State, site ssa.Instruction, cname s
 		k(st2, Val{}, true)
 	}
 	res := freshVal(rt, "ret")
+	if c.Functional {
+		var in []*Term
+		for _, a := range args {
+			in = append(in, a.C...)
+		}
+		res = Val{T: rt}
+		for _, lc := range layoutOf(rt) {
+			res.C = append(res.C, UF("fn."+cname+lc.Path, lc.Sort, in...))
+		}
+	}
 	x.assumeWF(st, res)
 	x.bindResults(env, c, sig, res)
 	ce2 := &CEnv{x: x, st: st, old: pre, vars: env, pkg: c.Pkg, fr: fr, entryAllocW: pre.allocW}
